@@ -261,6 +261,8 @@ class CallBudgetExceeded(Exception):
 
 CALLS = 0
 CALL_LIMIT = 2000000
+REACH = {}          # code object -> number of entries (which library functions the workload drove)
+ALL_CODES = []      # every library code object that is instrumented
 _budget_on = False
 
 
@@ -285,6 +287,7 @@ def enable_call_budget():
         if id(co) in seen:
             return
         seen.add(id(co))
+        ALL_CODES.append(co)
         mon.set_local_events(tool, co, mon.events.PY_START)
         for c in co.co_consts:
             if isinstance(c, types.CodeType):
@@ -309,6 +312,7 @@ def enable_call_budget():
     def on_start(code, offset):
         global CALLS
         CALLS += 1
+        REACH[code] = REACH.get(code, 0) + 1
         if CALLS > CALL_LIMIT:
             CALLS = 0
             raise CallBudgetExceeded(f'more than {CALL_LIMIT} library calls inside one event (in {code.co_name})')
@@ -324,3 +328,15 @@ def action_name(action):
 def action_owner(action):
     a = getattr(action, 'func', action)
     return getattr(a, '__self__', None)
+
+
+def reach_summary():
+    """{'file.py:function': entries} for every instrumented library function (0 = never driven)."""
+    import os
+    out = {}
+    for co in ALL_CODES:
+        if co.co_name.startswith('<') and co.co_name != '<lambda>':
+            continue
+        key = f'{os.path.basename(co.co_filename)}:{co.co_qualname}'
+        out[key] = out.get(key, 0) + REACH.get(co, 0)
+    return out
